@@ -337,7 +337,20 @@ def c12(res):
             out.append(gg.base_cfg("sim", 1, target_states=rng.choice([8, 30]), seed=rng.randint(0, 2 ** 32), log_chooser=True,
                                    replay_check=True, target_depth=rng.choice([0, 0, 3, 5])))
         return out
-    fam_graph.run_family(res, "C12", ["stop_reason", "target", "depth_max", "depth_min", "seed_replay", "first_trace"], graphs, cfgs)
+    fam_graph.run_family(res, "C12", ["stop_reason", "target", "target_real", "depth_max", "depth_min", "seed_replay", "first_trace"], graphs, cfgs)
+    # (b2) targets on graphs larger than a block whose states also have successors OUTSIDE the boundary
+    bg = []
+    for k, (w, h, f) in enumerate([(90, 70, 1), (60, 120, 2), (150, 40, 3)][: (2 if q else 3)]):
+        bg.append(dict(id="F4-fringed-%d" % k, family="fringed", n=w * h + 1, init=[1], succ=[], inb=[], params=[w, h, f], poison=0, rep=[],
+                       props=big_props(rng)))
+
+    def tcf(i, g):
+        # several targets: a counter inflated by out-of-boundary successors reaches some of them a block earlier
+        return [gg.base_cfg(s_, 1, light=True, watchdog_ms=60000, target_states=tg) for s_ in ("bfs", "dfs", "ondemand")
+                for tg in (2400, 2800, 3300, 4400, 5600)] + [gg.base_cfg(s_, 2, light=True, watchdog_ms=60000, target_states=3000) for s_ in ("bfs", "dfs")]
+    truns_, _ = checker_runs(res, "C12", bg, tcf, ["joined", "edges", "subset", "stop_reason", "target_real"], wd, "tgt")
+    if sum(1 for r_ in truns_ if len(r_["visits"]) >= 1500) < len(truns_) // 2:
+        raise ToolError("target runs on bounded big graphs explored almost nothing (vacuous)")
     # (c) timeouts on effectively unbounded models: every thread count must stop shortly after expiry
     unb = dict(id="unbounded", family="unbounded", n=4000000000, init=[1], succ=[], inb=[], params=[], poison=0, rep=[],
                props=big_props(rng))
@@ -347,10 +360,17 @@ def c12(res):
             ms = rng.choice([300, 600])
             tcfgs.append(dict(gg.base_cfg(s, t, timeout_ms=ms, no_visitor=True, watchdog_ms=ms + 1000 + 5500), expect_timeout=True))
     tcfgs.append(dict(gg.base_cfg("sim", 2, timeout_ms=400, no_visitor=True, watchdog_ms=400 + 1000 + 5500, seed=7), expect_timeout=True))
+    # a linear unbounded model: the worker's queue holds exactly one job at every block boundary
+    chain = dict(unb, id="unbounded-chain", family="unbounded_chain")
+    ccfgs = []
+    for s_ in ("bfs", "dfs", "ondemand"):
+        for t in (1, 2):
+            ms = rng.choice([300, 600])
+            ccfgs.append(dict(gg.base_cfg(s_, t, timeout_ms=ms, no_visitor=True, watchdog_ms=ms + 1000 + 5500), expect_timeout=True))
     ip = os.path.join(wd, "t-items.ndjson")
     rp = os.path.join(wd, "t-runs.ndjson")
-    write_ndjson(ip, [dict(g=unb, gi=1, cfgs=[c]) for c in tcfgs])
-    run_vh(["graphs", "--in", ip, "--out", rp, "--par", str(len(tcfgs))], timeout=600)
+    write_ndjson(ip, [dict(g=unb, gi=1, cfgs=[c]) for c in tcfgs] + [dict(g=chain, gi=2, cfgs=[c]) for c in ccfgs])
+    run_vh(["graphs", "--in", ip, "--out", rp, "--par", str(len(tcfgs) + len(ccfgs))], timeout=600)
     truns = read_ndjson(rp)
     # (d) an unexpired timeout must not change results or progress (finite graph, far-future timeout, 4 threads)
     fin = f4_graphs(rng, True)[:2]
@@ -382,7 +402,13 @@ def c12(res):
     r = run_tlc("JudgeTimeouts.tla", "cfg/empty.cfg", env=dict(RUNS=tp, OUT=to), timeout=600, name="jtimeouts")
     if not r["ok"]:
         raise ToolError("timeout judge failed: " + r["out"][-2000:])
-    for j in json.load(open(to))["judged"]:
+    tj = json.load(open(to))["judged"]
+    # non-vacuity: every timeout run must have had its delay check applied, every far-future run its harmlessness check
+    n_delay = sum(1 for j in tj if "timeout_delay" in j["applied"])
+    n_harm = sum(1 for j in tj if "timeout_harmless" in j["applied"])
+    if n_delay != len(truns) or n_harm != len(hruns) // 2:
+        raise ToolError("timeout checks were not applied to every timeout run (%d/%d, %d/%d)" % (n_delay, len(truns), n_harm, len(hruns) // 2))
+    for j in tj:
         run = allt[j["rid"] - 1]
         for f in j["failed"]:
             res.violation("%s/%s/%s" % (f, run["cfg"]["strategy"], "t1" if run["cfg"]["threads"] == 1 else "tn"),
